@@ -143,6 +143,48 @@ func c11Run(p c11Plan) *common.Fail {
 		if l3 := ldataOf(m3); l3 == nil || !sameRLData(fromLibLData(l3), &want) {
 			return common.Failf("layout-decode-shared", "after the value decoded from %x was overwritten by its owner, decoding the same layout again gives %s\n expected %+v (decoded values share state)", orig, common.Show(m3), want)
 		}
+	case "overwide":
+		// a value whose sequence number or application control code does not fit its field (an application that keeps a
+		// running uint8 counter): whatever ends up in that field's own bits, no bit of it may land in a neighbouring
+		// field - the data/control flag, the numbered flag, the other half of the control octets, the length
+		c := p.Cemi
+		lib := common.ToLibCemi(c)
+		buf := make([]byte, cemi.Size(lib))
+		cemi.Pack(buf, lib)
+		fit := *c
+		ld := *c.LData
+		fit.LData = &ld
+		seqWide, apciWide := ld.TPDU.Seq > 15, (ld.TPDU.Control && ld.TPDU.APCI > 3) || (!ld.TPDU.Control && ld.TPDU.APCI > 15)
+		fit.LData.TPDU.Seq &= 15
+		if ld.TPDU.Control {
+			fit.LData.TPDU.APCI &= 3
+		} else {
+			fit.LData.TPDU.APCI &= 15
+		}
+		ref, _ := common.RefEncodeCemi(&fit)
+		if len(buf) != len(ref) {
+			return common.Failf("layout-overwide", "cemi.Pack of %s gives %d octets %x, the layout has %d (%x)", common.Show(lib), len(buf), buf, len(ref), ref)
+		}
+		at := 9 + len(ld.Info)
+		a, b := append([]byte{}, buf...), append([]byte{}, ref...)
+		if at+1 < len(a) || (ld.TPDU.Control && at < len(a)) {
+			if seqWide && ld.TPDU.Numbered {
+				a[at] &^= 0x3c
+				b[at] &^= 0x3c
+			}
+			if apciWide {
+				a[at] &^= 0x03
+				b[at] &^= 0x03
+				if !ld.TPDU.Control {
+					a[at+1] &^= 0xc0
+					b[at+1] &^= 0xc0
+				}
+			}
+		}
+		if !bytes.Equal(a, b) {
+			return common.Failf("layout-overwide", "cemi.Pack of %s (sequence number %d, control code %d: wider than their fields)\n gives     %x\n reference %x (apart from the bits of the over-wide field itself): a neighbouring field was touched",
+				common.Show(lib), ld.TPDU.Seq, ld.TPDU.APCI, buf, ref)
+		}
 	case "bytes":
 		b, _ := hex.DecodeString(p.Hex)
 		want, rerr := common.RefDecodeCemi(b)
@@ -283,6 +325,26 @@ func TestC11(t *testing.T) {
 			}
 		}
 	}
+	// sequence numbers and control codes wider than their fields
+	for _, ctl := range []bool{false, true} {
+		for _, numbered := range []bool{false, true} {
+			for v := 0; v < 256; v++ {
+				c := base()
+				c.LData.TPDU = common.RTPDU{Control: ctl, Numbered: numbered, Seq: uint8(v), APCI: 2, Data: []byte{0x15, 0xaa}}
+				if ctl {
+					c.LData.TPDU.Data = nil
+				}
+				do(c11Plan{Mode: "overwide", Cemi: c})
+				c2 := base()
+				c2.LData.TPDU = common.RTPDU{Control: ctl, Numbered: numbered, Seq: 5, APCI: uint8(v), Data: []byte{0x15, 0xaa}}
+				if ctl {
+					c2.LData.TPDU.Data = nil
+				}
+				do(c11Plan{Mode: "overwide", Cemi: c2})
+			}
+		}
+	}
+	rec.Exhaustive("every 8-bit sequence number and every 8-bit control code (also those wider than the field) x numbered x control/data: no bit outside the field's own slot changes")
 	// application units without payload (group reads): the short-data field must be written as zero
 	for apci := 0; apci < 16; apci++ {
 		for _, numbered := range []bool{false, true} {
